@@ -382,6 +382,71 @@ def directed(srv, res, rng):
             res.violation("order/behind-blocking-pop/served", "[%s bq 0, SET flag, %s bq 0, ECHO] in one write, two pushes by another client -> %s; flag existed "
                           "before the first push: %r, after it: %r (expected [[bq,v1], OK, [bq,v2], 'after-serve'], 0, 1)" % (
                               pop.decode(), pop.decode(), resp.show(got), early, mid))
+    # a command that fails for a reason outside the client's control (an I/O error while saving) is answered with
+    # an error like any other, in its place, and the commands around it keep their replies
+    for step in (0, 2, 5):
+        for cmd in (b"SAVE", b"BGSAVE"):
+            c = srv.client(timeout=10)
+            c.cmd("SET", "io:k", "v")
+            c.cmd("VERIF", "RDB", "FAILSTEP", str(step))
+            c.send_raw(b"".join(resp.encode(a) for a in [[b"ECHO", b"before-save"], [cmd], [b"ECHO", b"after-save"]]))
+            got = []
+            try:
+                for _ in range(3):
+                    got.append(c.recv())
+            except (Timeout, Closed, resp.ProtocolError) as e:
+                got.append(type(e).__name__)
+            c.close()
+            t = srv.client(timeout=10)
+            t.cmd("VERIF", "RDB", "FAILSTEP", "-1")
+            server.wait_loops(t, 3)
+            for _ in range(200):
+                if t.cmd("VERIF", "RDB", "INPROGRESS") == 0:
+                    break
+                time.sleep(0.01)
+            t.close()
+            res.evaluations += 3
+            res.cell("directed", "failing-save-in-pipeline", cmd.decode(), "step%d" % step)
+            okk = len(got) == 3 and got[0] == b"before-save" and got[2] == b"after-save" and \
+                (isinstance(got[1], Err) if cmd == b"SAVE" else isinstance(got[1], (Err, resp.Status)))
+            if not okk:
+                res.violation("silent-or-closed/failing-%s" % cmd.decode(), "[ECHO, %s (I/O error injected at save step %d), ECHO] in one write -> %s, expected "
+                              "['before-save', <error>, 'after-save']" % (cmd.decode(), step, resp.show(got)))
+    # replies that do not fit the socket buffers, followed by a blocking pop that has to wait: the replies keep flowing
+    # while the client is blocked, and the pop is answered when it is served
+    c = srv.client(timeout=30)
+    o = srv.client(timeout=10)
+    c.cmd("SET", "big1m", b"m" * (1 << 20))
+    o.cmd("DEL", "bq3")
+    n = 24
+    c.send_raw(b"".join(resp.encode([b"GET", b"big1m"]) for _ in range(n)) + resp.encode([b"BLPOP", b"bq3", b"0"]))
+    got_n = 0
+    problem = None
+    try:
+        for i in range(n):
+            r = c.recv(timeout=10)
+            if not (isinstance(r, bytes) and len(r) == 1 << 20):
+                problem = "reply %d is %s" % (i, resp.show(r, 30))
+                break
+            got_n += 1
+    except (Timeout, Closed, resp.ProtocolError) as e:
+        problem = "%s after %d of %d complete replies (the client is still waiting in BLPOP)" % (type(e).__name__, got_n, n)
+    served = None
+    if problem is None:
+        o.cmd("RPUSH", "bq3", "wake")
+        try:
+            served = c.recv(timeout=10)
+        except (Timeout, Closed, resp.ProtocolError) as e:
+            problem = "BLPOP not answered after the push: %s" % type(e).__name__
+        if problem is None and served != [b"bq3", b"wake"]:
+            problem = "BLPOP answered %s" % resp.show(served)
+    c.close()
+    o.cmd("DEL", "big1m", "bq3")
+    o.close()
+    res.evaluations += n + 1
+    res.cell("directed", "large-replies-then-blocking-pop")
+    if problem:
+        res.violation("silent/large-replies-then-blocking-pop", "24 x GET of a 1 MiB value + BLPOP bq3 0 in one write, the client reads at once: %s" % problem)
     # several clients whose multi-key blocking pops time out in the same event-loop pass: one nil each, no more
     for stalled in (False, True, True):
         ws = [srv.client(timeout=5) for _ in range(3)]
